@@ -275,6 +275,7 @@ class Emitter:
         self.lines = []
         self.map = {}       # line number (1-based) -> dict
         self.fnspans = []   # (start, end, module, fn)
+        self.uncontracted_fns = []   # functions of a contracted view that have no contract of their own (e.g. a newly extracted helper)
         self.hint_lines = []  # lines of injected proof text (not code): a failure there is a proof-hint problem, not a code obligation
     def add(self, text, info=None):
         for ln in text.split('\n'):
@@ -322,6 +323,8 @@ def inject_fn(em, module, vc, header, body, is_trait_impl, struct_name):
     if rm and not re.match(r'\(\w+\s*:', rm.group(1).strip()):
         hdr = hdr[:rm.start()] + '-> (r: %s)' % rm.group(1).strip()
     start_line = em.lineno() + 1
+    if ('fn ' + name) not in vc.sec and name not in ('update', 'last') and not is_trait_impl and vc.sec:
+        em.uncontracted_fns.append('%s::%s' % (module, name))
     raw = y = None
     pm = re.search(r'fn update\(\s*&mut self,\s*(\w+)\s*:', hdr)
     if pm:
@@ -595,6 +598,7 @@ def build(out_path, only=None):
     report['line_map'] = {str(k): v for k, v in em.map.items()}
     report['fnspans'] = em.fnspans
     report['hint_lines'] = em.hint_lines
+    report['uncontracted_fns'] = em.uncontracted_fns
     report['modules'] = stems
     report['n_lines'] = len(em.lines)
     return report
